@@ -131,18 +131,32 @@ def pointFloats (p : Spz.Point Float) : List Float :=
 /-- the statement of `spz_decode_refEncode` on the implementation's output: splat `i` of the cloud is the
     dequantisation of record `i`; every attribute array has `n` entries and there are `dim` SH arrays.
     `fs` = the cloud in `cloudFloats` order. -/
-def spzHolds (h : Spz.Header) (recs : List Spz.Packed) (n dim : Nat) (fs : List Float) : Bool :=
+def spzHolds (h : Spz.Header) (recs : List Spz.Packed) (n dim : Nat) (fsL : List Float) : Bool :=
   let N := h.numPoints
   let D := Spz.shDim h.shDegree
-  n == N && dim == D && recs.length == N && fs.length == N * (14 + 3 * D) &&
+  let fs := fsL.toArray          -- constant-time indexing: the oracle also runs on clouds of thousands of points
+  let ra := recs.toArray
+  let at3 := fun (off i : Nat) => [fs.getD (off + 3 * i) 0, fs.getD (off + 3 * i + 1) 0, fs.getD (off + 3 * i + 2) 0]
+  n == N && dim == D && ra.size == N && fs.size == N * (14 + 3 * D) &&
   (List.range N).all fun i =>
-    let at3 := fun (off i : Nat) => (fs.drop (off + 3 * i)).take 3
-    let got := at3 0 i ++ (fs.drop (3 * N + i)).take 1 ++ at3 (4 * N) i ++ at3 (7 * N) i ++
-      (fs.drop (10 * N + 4 * i)).take 4 ++
+    let got := at3 0 i ++ [fs.getD (3 * N + i) 0] ++ at3 (4 * N) i ++ at3 (7 * N) i ++
+      [fs.getD (10 * N + 4 * i) 0, fs.getD (10 * N + 4 * i + 1) 0, fs.getD (10 * N + 4 * i + 2) 0, fs.getD (10 * N + 4 * i + 3) 0] ++
       (List.range D).flatMap (fun d => at3 (14 * N + 3 * N * d) i)
-    match recs[i]? with
+    match ra[i]? with
     | some r => bitsEq got (pointFloats (Spz.dequant spzEnv h r))
     | none => false
+
+/-- `… holds.readers_agree`: the decoder was fed the same bytes through a family of io.Readers (different chunkings);
+    args: (reader-name digest)* — true iff every digest equals the first (the decode is a function of the bytes) -/
+def readersAgree : List String → Option Bool
+  | [] => some true
+  | [_] => none
+  | _ :: d :: rest =>
+    let rec go : List String → Option Bool
+      | [] => some true
+      | [_] => none
+      | _ :: d' :: r => (go r).map (fun b => b && d' == d)
+    go rest
 
 def handleSpz (op : String) (args : List String) : Option String :=
   match op, args with
@@ -205,6 +219,7 @@ def handle (op : String) (args : List String) : Option String :=
           pure (boolStr (m == n && (orig.zip got).all fun (s, t) =>
             (splatTo s).map (fun x => (E.of32 (E.to32 x)).toBits) == (splatTo t).map Float.toBits))
       | _ => none
+  | "c15.holds.readers_agree", _fmt :: rest => (readersAgree rest).map boolStr
   | "c15.holds.splatply_rest", n :: cnt :: rest => do
       -- PLY splat export of the higher-order harmonics: EVERY f_rest_k (k < cnt) of the cloud must come back,
       -- each value as its float32 rounding.  args: n cnt <cnt*n original values, k-major> m p (k <m values>)*p
